@@ -28,6 +28,27 @@ def variant_files(kind, k=0, pkg="pk"):
     if kind == "U":
         return {"a.go": base + "\nfunc NewT() T { return T{} }\n\nfunc NewU(t T) U { return U{T: t} }\n\nfunc NewInt() int { return 1 }\n",
                 "wire.go": inj_hdr + "func Init() U {\n\twire.Build(NewT, NewU, NewInt)\n\treturn U{}\n}\n"}
+    if kind in ("M", "F", "G"):
+        # injectors spread over two files: M both fine; F the first file's injector cannot be built (missing provider), the last
+        # file's can; G the other way round.  One failing injector fails the package, wherever it is written.
+        good1 = "func Init() U {\n\twire.Build(NewT%d, NewU%d)\n\treturn U{}\n}\n" % (k, k)
+        good2 = "func Init2() T {\n\twire.Build(NewT%d)\n\treturn T{}\n}\n" % k
+        bad1 = "func Init() U {\n\twire.Build(NewU%d)\n\treturn U{}\n}\n" % k
+        bad2 = "func Init2() T {\n\twire.Build(NewU%d)\n\treturn T{}\n}\n" % k
+        return {"a.go": base + "\nfunc NewT%d() T { return T{N: %d} }\n\nfunc NewU%d(t T) U { return U{T: t} }\n" % (k, k, k),
+                "a_wire.go": inj_hdr + (bad1 if kind == "F" else good1),
+                "z_wire.go": inj_hdr + (bad2 if kind == "G" else good2)}
+    if kind == "H":
+        # a helper next to the injector, which Wire copies into its output: the output then declares the name dbx
+        return {"a.go": base + "\nfunc NewT%d() T { return T{N: %d} }\n\nfunc NewU%d(t T) U { return U{T: t} }\n" % (k, k, k),
+                "wire.go": inj_hdr + "func Init() U {\n\twire.Build(NewT%d, NewU%d)\n\treturn U{}\n}\n\nfunc dbx() int { return %d }\n\nvar _ = dbx()\n" % (k, k, k)}
+    if kind == "I":
+        # the same name is now a package the generated file has to import
+        return {"a.go": base + "\nfunc NewU%d(t T) U { return U{T: t} }\n" % k,
+                "dbx/dbx.go": "package dbx\n\nfunc NewN() int { return %d }\n" % (k + 7),
+                "b.go": "package %s\n\nimport \"%s/%s/dbx\"\n\nfunc NewT%d(n int) T { return T{N: n} }\n\nvar _ = dbx.NewN\n" % (pkg, MOD, pkg, k),
+                "wire.go": inj_hdr.replace('import "github.com/google/wire"', 'import (\n\t"github.com/google/wire"\n\t"%s/%s/dbx"\n)' % (MOD, pkg))
+                + "func Init() U {\n\twire.Build(dbx.NewN, NewT%d, NewU%d)\n\treturn U{}\n}\n" % (k, k)}
     if kind == "N":
         return {"a.go": base}
     if kind == "O":
@@ -39,11 +60,11 @@ def variant_files(kind, k=0, pkg="pk"):
 
 
 def expected_errs(kind):
-    return kind in ("R", "U")
+    return kind in ("R", "U", "F", "G")
 
 
 def has_output(kind):
-    return kind in ("A", "E")
+    return kind in ("A", "E", "M", "H", "I")
 
 
 class Workspace:
@@ -74,6 +95,7 @@ class Workspace:
             if f.endswith(".go") and not f.endswith("wire_gen.go"):
                 os.remove(p + "/" + f)
         for name, content in variant_files(kind, k, pkg=d.split("/")[-1]).items():
+            os.makedirs(os.path.dirname(p + "/" + name), exist_ok=True)
             open(p + "/" + name, "w").write(content)
 
     def read(self, d, name="wire_gen.go"):
@@ -164,7 +186,8 @@ PRIOR = ["absent", "same", "stale", "garbage", "noncompiling", "longstale", "dir
 # invocations every run starts with: several packages with output under each option (the random cases reach a
 # particular combination of option and package mix only now and then)
 C17_SCRIPTED = [("gen", "AOA"), ("diff", "OA"), ("check", "AO"), ("gen-header", "AAA"), ("gen-header", "AEAA"), ("gen-prefix", "AA"), ("gen", "ARA"), ("diff-header", "AA"),
-                ("gen-tags", "AE"), ("gen-default", "AUA"), ("diff", "RA"), ("gen-header", "ANRA"), ("diff", "AR")]
+                ("gen-tags", "AE"), ("gen-default", "AUA"), ("diff", "RA"), ("gen-header", "ANRA"), ("diff", "AR"),
+                ("gen", "AFA"), ("diff", "FA"), ("gen", "GM"), ("check", "F"), ("gen-header", "MF")]
 
 
 def c17_case(rng, ws, case_no, force=None):
@@ -177,7 +200,7 @@ def c17_case(rng, ws, case_no, force=None):
             shutil.rmtree(ws.root + "/" + d)
     pkgs = []
     for i in range(n):
-        kind = rng.choice(["A", "A", "E", "R", "U", "N"])
+        kind = rng.choice(["A", "A", "E", "R", "U", "N", "M", "F", "G"])
         if rng.random() < 0.05:
             kind = "X"
         if force:
@@ -340,7 +363,7 @@ def run_c17(rep, tier):
 
 # ---- C18: histories -------------------------------------------------------------------------------------
 
-VARIANTS = [("A", 0), ("A", 1), ("E", 0), ("R", 0), ("N", 0), ("U", 0)]
+VARIANTS = [("A", 0), ("A", 1), ("E", 0), ("R", 0), ("N", 0), ("U", 0), ("H", 0), ("I", 0)]
 
 
 def run_c18(rep, tier):
@@ -372,6 +395,9 @@ def run_c18(rep, tier):
                 scripted.append((vi, noted[0], ["gen", "gen"]))
         rng.shuffle(scripted)
         scripted = scripted[:(8 if tier == "quick" else len(scripted))]
+        # a name the old output declares becomes the name of a package the new output imports, and back
+        vH, vI = VARIANTS.index(("H", 0)), VARIANTS.index(("I", 0))
+        scripted = [(vH, None, ["gen", "switch:%d" % vI, "gen", "diff"]), (vI, None, ["gen", "switch:%d" % vH, "gen", "diff"])] + scripted
         for h in range(nh + len(scripted)):
             plan = scripted[h] if h < len(scripted) else None
             v = plan[0] if plan else rng.randrange(len(VARIANTS))
@@ -388,8 +414,11 @@ def run_c18(rep, tier):
                     op, pick = "clobber", clobbers[int(op.split(":")[1])]
                 before_file = ws.read(d)
                 snap_before = ws.snapshot()
+                to = None
+                if op.startswith("switch:"):
+                    op, to = "switch", int(op.split(":")[1])
                 if op == "switch":
-                    cur = rng.randrange(len(VARIANTS))
+                    cur = rng.randrange(len(VARIANTS)) if to is None else to
                     ws.set_variant(d, *VARIANTS[cur])
                     enc += [0, cur]
                     exits.append("-")
